@@ -10,7 +10,8 @@ stream with its own framing parser and reads the file back with bam.Reader (rd 1
 Omit modes 0, 1, 2 - keeping every returned record until the end of the file before
 projecting it.  TLC evaluates the reference on every record (CodecTrace): bytes equal
 except the bin field, read-back projection equals the record minus exactly the omitted
-parts, header equal, io.EOF at the end."""
+parts, header equal, io.EOF at the end.  CodecMC: TLC checks Decode(Encode(r)) = r for a decoder
+written from the same section of the specification over a class-complete small record domain."""
 LEVEL = "exploration"
 TRACE_CFG = {"CodecTrace": "CodecTrace.cfg"}
 
@@ -64,6 +65,9 @@ def run(ctx):
     ctx.assumptions = ["the bin field (bytes 15,16 of a record) is excluded from the byte comparison, as the property states",
                        "the header text placed in the BAM header is taken as given (Header.MarshalText); its framing, the reference list and their agreement are checked",
                        "float aux values are carried as their four IEEE bytes"]
+    # self-consistency of the reference: a decoder written from the same text recovers every record of a
+    # class-complete small domain from Encode's bytes (so the encoding is unambiguous on it)
+    ctx.mcheck("Codec", "CodecMC", "CodecMC_%s.cfg" % ctx.tier, timeout=3000)
     ctx.build()
     trace = ctx.work + "/c05.ndjson"
     s = ctx.drive(["c05", "--mode", "bam", "--out", trace])
